@@ -581,4 +581,5 @@ func TestStrategy(t *testing.T) {
 		"count<=0, negative limit, duplicate names, zero/negative capacity, negative count, NaN/Inf, huge need); " +
 		"non-trivial = valid-stream case with >= 2 candidates not rejected by the first guard (strategy name, count, total<need). " +
 		"Strategies: " + strings.Join(strategies, ","))
+	glueStream(t, prop)
 }
